@@ -9,6 +9,7 @@ import Gribi.Model.Server
 import Gribi.Drv.ChkDrv
 import Gribi.Drv.FluentDrv
 import Gribi.Drv.ClientDrv
+import Gribi.Drv.FaultDrv
 namespace Gribi.Drv
 open Gribi
 
@@ -512,9 +513,12 @@ def srvLine (st : SrvSt) (ts : List Tok) : SrvSt :=
       let st := bump st
       -- concurrent run: the harness judged the quiescent election state; RIB closure is not
       -- expected when a Flush may have overlapped a Modify
-      let st := { st with rs := { st.rs with partialFlush := true, diverged := true } }
+      let flushed := match args with
+        | [_, _, f] => tokStr f != "0"
+        | _ => true
+      let st := { st with rs := { st.rs with partialFlush := flushed, diverged := true, blind := true } }
       match args with
-      | [okTok, msg] =>
+      | okTok :: msg :: _ =>
         if tokStr okTok == "1" then st.covr "conc.ok"
         else
           let m := (strOf msg).getD ""
@@ -524,6 +528,7 @@ def srvLine (st : SrvSt) (ts : List Tok) : SrvSt :=
     else if c = "hang" then
       let st := bump st
       (st.monfail "c10" "the server did not answer within the watchdog (hang)").diff "hang" "the implementation hung"
+    else if c = "cf.obs" then { st with rs := faultLine st.rs ts }
     else if c.startsWith "chk." then { st with rs := chkLine st.rs ts }
     else if c.startsWith "cl." || c = "obs.cl" then
       let (rs, cl) := clientLine st.rs st.cl ts
